@@ -142,7 +142,54 @@ def parseSlots (j : Json) : Except String (List Slot) := do
     if jBoolD s "bad" false then pure Slot.bad
     else pure (Slot.good (← jStr s "n") (← jStr s "v")))
 
+/-- C19 across a stream failure: idle names and one name in use are cached and subscribed; the sweep at `now` runs while
+the connection is stalled, then the in-flight `Send` fails, the stream breaks and the client reconnects. Expected interest
+set and cache come from `Sweep.sweep` (the definition the C19 theorems are about) over the entries in a fixed order; the
+control plane's last word on the new stream must be that interest set. -/
+def checkSweepFailover (j : Json) : Except String Verdict := do
+  let idle ← jStrList j "idle"
+  let used ← jStr j "used"
+  let now := jNatD j "now" 130
+  let t0 := jNatD j "idleSince" 60
+  let t1 := jNatD j "usedSince" 129
+  let obs ← j.getObjVal? "obs"
+  let cfg : Cfg := { sendAborts := Generated.sendAborts, metaInitNow := Generated.metaInitNow, ndsRequired := false, ns := "default".toList, dom := "cluster.local".toList }
+  let all := idle ++ [used]
+  let s0 : St := { Seq.init with
+    watched := fun rt => if rt = .eds then some all else none
+    cache := fun rt n => if rt = .eds && all.contains n then some (n ++ "#1") else none
+    acc := fun rt n => if rt = .eds && idle.contains n then some (some t0) else if rt = .eds && n = used then some (some t1) else none }
+  let sw := Sweep.sweep cfg now s0 (all.map (fun n => (RType.eds, n)))
+  let wantInterest := sortStr ((sw.watched .eds).getD [])
+  let wantCached := sortStr (all.filter (fun n => (sw.cache .eds n).isSome))
+  let interest := sortStr ((jStrList obs "interest").toOption.getD [])
+  let cached := sortStr ((jStrList obs "cached").toOption.getD [])
+  let last := sortStr ((jStrList obs "lastReqNames").toOption.getD [])
+  let streams := jNatD obs "streams" 0
+  let mm : Option String :=
+    if interest != wantInterest then some s!"sweep across a stream failure: interest set model {wantInterest}, impl {interest}"
+    else if cached != wantCached then some s!"sweep across a stream failure: cache model {wantCached}, impl {cached}"
+    else if streams < 2 then some "sweep across a stream failure: the client did not reconnect"
+    else if last != wantInterest then some s!"sweep across a stream failure: last request on the new stream: model {wantInterest}, impl {last}"
+    else none
+  let sf : Option String :=
+    match idle.find? (fun n => cached.contains n) with
+    | some n => some s!"C19.sweep: eds/{n} (idle since {t0}) is still cached after the sweep at {now}"
+    | none =>
+      match idle.find? (fun n => interest.contains n) with
+      | some n => some s!"C19.sweep: eds/{n} was removed but is still in the interest set"
+      | none =>
+        if streams < 2 then none
+        else match idle.find? (fun n => last.contains n) with
+          | some n => some s!"C19.sweep (withdrawn from the interest set - a request without it is sent): the stream failed while the sweep's first withdrawal was in flight; after the reconnect the control plane's last word on the new stream still names the evicted eds/{n} ({last.length} names; the interest set is {interest}): it keeps the subscription although the client dropped it"
+          | none =>
+            if !cached.contains used || !interest.contains used then some s!"C19.recent_kept: eds/{used} (looked up at {t1}) was removed by the sweep at {now}"
+            else if !last.contains used then some s!"C19: the last request on the new stream does not name eds/{used}, which is still subscribed"
+            else none
+  return { nontrivial := true, mismatch := mm, specfail := sf }
+
 def check (pid : String) (j : Json) : Except String Verdict := do
+  if jStrD j "op" "" = "sweep-failover" then return ← checkSweepFailover j
   let cj ← j.getObjVal? "cfg"
   let cfg : Cfg := { sendAborts := Generated.sendAborts, metaInitNow := Generated.metaInitNow,
                      ndsRequired := jBoolD cj "nds" true, ns := (jStrD cj "ns" "default").toList, dom := (jStrD cj "dom" "cluster.local").toList }
